@@ -234,7 +234,7 @@ def run(ctx):
                 break
         if t.fail:
             break
-    rounds = 1500 if ctx.tier == "quick" else 20000
+    rounds = 4000 if ctx.tier == "quick" else 25000
     for _ in range(rounds if not t.fail else 0):
         try:
             cp = real.Copyright()
